@@ -404,6 +404,12 @@ def cli_oracle(pid, o, groups):
     if pid in ("C08", "C16") and o.get("lib_matches") is False and o["rc"] == 0:
         fails.append(("the CLI with flags %s does not produce what the library produces for the configuration these "
                       "flags select" % o["flags"], "flag wiring"))
+    if pid in ("C17", "C19") and o.get("must_fail") and o["rc"] == 0:
+        # the scenario contains a failure condition the property names (unknown type, non-interface, unloadable
+        # package, bad mock name), decided by how the scenario was built, not by the model
+        fails.append(("moq exited 0 although the run contains a failure condition (%s, arguments %s)"
+                      % (o["name"].split("-")[0] + ("/" + o["fault"] if o["fault"] else ""), o["args"]),
+                      "failure not reported"))
     if pid == "C17":
         if o["rc"] != 0:
             if go_on_stdout:
